@@ -5,6 +5,7 @@ import (
 	"compress/gzip"
 	"fmt"
 	"io"
+	"runtime"
 	"strings"
 	"time"
 
@@ -226,6 +227,74 @@ func suiteCodecs(r *rng, n int) {
 					res = "mismatch"
 				}
 				emit("codecs", "dec", f, "0", hx(cls), itoa(int64(len(body))), "=>", res)
+				if f == "gzip" && len(body) > 0 && len(body) <= 1<<20 && cr.chance(40) {
+					// a gzip stream that lost its tail is not a gzip stream: the decoder reports it (it does not hand out
+					// the part it could decode as if that were the body)
+					full := encGzip(body)
+					cutAt := 10 + cr.intn(len(full)-10)
+					d, res := guarded(func() ([]byte, error) { return srv.Decompress("gzip", full[:cutAt]) })
+					if res == "ok" {
+						res = "mismatch"
+						_ = d
+					} else if res == "err" {
+						res = "ok"
+					}
+					emit("codecs", "dec", "gzip", "-2", hx(cls), itoa(int64(len(body))), "=>", res)
+					// … and a trailer whose size field was damaged costs an error, not memory in proportion to the field
+					bad := append([]byte(nil), full...)
+					bad[len(bad)-1] = 0x7f
+					var ms0, ms1 runtime.MemStats
+					runtime.ReadMemStats(&ms0)
+					_, res2 := guarded(func() ([]byte, error) { return srv.Decompress("gzip", bad) })
+					runtime.ReadMemStats(&ms1)
+					grew := ms1.TotalAlloc - ms0.TotalAlloc
+					if res2 == "err" {
+						res2 = "ok"
+					} else if res2 == "ok" {
+						res2 = "mismatch"
+					}
+					if grew > uint64(64<<20+100*len(body)) {
+						res2 = "alloc"
+					}
+					emit("codecs", "dec", "gzip", "-3", hx(cls), itoa(int64(len(body))), "=>", res2)
+					stat("dec-gzip-damaged")
+				}
+				if f == "gzip" && len(body) <= 1<<20 && cr.chance(50) {
+					// a stream of several members (cat a.gz b.gz; pigz; BGZF): a valid gzip stream, restored by every
+					// standard reader to the concatenation of its members
+					cut := cr.intn(len(body) + 1)
+					ms := append(encGzip(body[:cut]), encGzip(body[cut:])...)
+					if cr.chance(30) {
+						ms = append(ms, encGzip(nil)...) // an empty last member
+					}
+					d, res := guarded(func() ([]byte, error) { return srv.Decompress("gzip", ms) })
+					if res == "ok" && !bytes.Equal(d, body) {
+						res = "mismatch"
+					}
+					emit("codecs", "dec", "gzip", "2", hx(cls), itoa(int64(len(body))), "=>", res)
+					stat("dec-gzip-members")
+				}
+				if f == "zst" && len(body) <= 1<<20 && cr.chance(50) {
+					// a skippable frame (RFC 8878 §3.1.2: magic 0x184D2A5?, length, user data) in front of, between or
+					// behind the data frames is part of a valid stream and contributes nothing
+					skip := []byte{byte(0x50 + cr.intn(16)), 0x2a, 0x4d, 0x18, 5, 0, 0, 0, 'h', 'e', 'l', 'l', 'o'}
+					var st []byte
+					switch cr.intn(3) {
+					case 0:
+						st = append(append([]byte(nil), skip...), encZstd(body)...)
+					case 1:
+						st = append(encZstd(body), skip...)
+					default:
+						cut := cr.intn(len(body) + 1)
+						st = append(append(encZstd(body[:cut]), skip...), encZstd(body[cut:])...)
+					}
+					d, res := guarded(func() ([]byte, error) { return srv.Decompress("zst", st) })
+					if res == "ok" && !bytes.Equal(d, body) {
+						res = "mismatch"
+					}
+					emit("codecs", "dec", "zst", "-1", hx(cls), itoa(int64(len(body))), "=>", res)
+					stat("dec-zst-skippable")
+				}
 				if f == "zst" && len(body) <= 1<<20 {
 					// the same body in a frame whose header declares a large window (the ENCODER's choice: streaming
 					// encoders at high levels and `--long` declare 8 MB .. 128 MB whatever the payload size)
